@@ -78,6 +78,8 @@ UNITS += [
         /*@uncacheable_writes_bypass_cache*/ !(cacheable || tpe is Snapshot || tpe is Index) ==> final(self).cache@ == old(self).cache@,
         /*@write_through_only_this_file*/ final(self).cache@ == old(self).cache@ || final(self).cache@ == old(self).cache@.insert((tpe, *id), content.data@),
         /*@write_keeps_stores_content_addressed*/ final(self).content_addressed(),
+        // "the same results whether or not the cache is enabled": the state of the cache directory never makes a write fail (or succeed)
+        /*@cached_write_succeeds_exactly_when_the_backend_alone_would*/ r is Ok <==> BE_ACCEPTS_WRITE(old(self).be, (tpe, *id)),
 """),
     Unit(name="cb_remove", file=CA, anchor="fn remove(&self, tpe: FileType, id: &Id, cacheable: bool) -> RusticResult<()>", within=WW, ret_name="r", **W,
          functions=["<backend::cache::CachedBackend as WriteBackend>::remove"],
@@ -89,6 +91,7 @@ UNITS += [
         /*@removed_cacheable_file_leaves_the_cache*/ (cacheable || tpe is Snapshot || tpe is Index) && old(self).cache.healthy@ ==> !final(self).cache@.dom().contains((tpe, *id)),
         /*@remove_touches_only_this_cache_entry*/ final(self).cache@ == old(self).cache@ || final(self).cache@ == old(self).cache@.remove((tpe, *id)),
         /*@remove_keeps_stores_content_addressed*/ final(self).content_addressed(),
+        /*@cached_remove_succeeds_exactly_when_the_backend_alone_would*/ r is Ok <==> BE_ACCEPTS_REMOVE(old(self).be, (tpe, *id)),
 """),
 ]
 
